@@ -666,6 +666,15 @@ func (db *DB) searchAll(o Object, field, operator string, value interface{}, con
 		return &Search{db: db, err: err}
 	}
 
+	fp := fieldPath(field)
+	searchType := search.valueTypeString()
+
+	// we validate search arguments before going through the objects
+	// so that an invalid search fails whatever the collection contains
+	if err = validateSearch(o, field, fp, operator, search); err != nil {
+		return &Search{db: db, err: err}
+	}
+
 	// building up the iterator out of constrain
 	if constrain != nil {
 		uuids := make([]string, 0, len(constrain))
@@ -678,9 +687,6 @@ func (db *DB) searchAll(o Object, field, operator string, value interface{}, con
 	}
 
 	// we go through the iterator
-	fp := fieldPath(field)
-	searchType := search.valueTypeString()
-
 	for obj, err := iter.next(); err == nil && err != ErrEOI; obj, err = iter.next() {
 		var test *indexedField
 		var value interface{}
